@@ -2,6 +2,9 @@
 
 package minify
 
+// Harnesses for C08 (Number / Decimal). Reference recogniser and oracle are written from the
+// number grammar [+-]?(d+.?d*|.d+)([eE][+-]?d+)? and never call the code under test.
+
 func refDigit(c byte) bool { return '0' <= c && c <= '9' }
 
 // refIsNumber: [+-]?(d+.?d*|.d+)([eE][+-]?d+)?
@@ -125,57 +128,289 @@ func refSame(a, b refNum) bool {
 	return true
 }
 
-// VerifNumberExact: Number(in, 0) for every number lexeme of length n.
+// vWithin: out is a sub-slice of in (same backing array, inside in's length).
+func vWithin(out, in []byte) bool {
+	if len(out) == 0 {
+		return true
+	}
+	for k := range in {
+		if &out[0] == &in[k] {
+			return len(out) <= len(in)-k
+		}
+	}
+	return false
+}
+
+// refWithinHalfUlp: |b - a| <= 1/2 * 10^(a.e - prec), i.e. half a unit of a's prec-th significant digit.
+// Exponents must be concrete on the path (inputs without a symbolic exponent part); digits may be symbolic.
+// Branch-free digit arithmetic (vIte) keeps the oracle from forking.
+func refWithinHalfUlp(a, b refNum, prec int) bool {
+	if a.zero {
+		return b.zero
+	}
+	if !b.zero && a.neg != b.neg {
+		return false
+	}
+	ae, be := vConcrete(a.e), a.e
+	if b.zero {
+		be = ae
+	} else {
+		be = vConcrete(b.e)
+	}
+	// common digit grid: index 0 has weight 10^(hi-1), last index weight 10^lo
+	hi, lo := ae, ae-len(a.ds)
+	if !b.zero {
+		if be > hi {
+			hi = be
+		}
+		if be-len(b.ds) < lo {
+			lo = be - len(b.ds)
+		}
+	}
+	q := ae - prec // bound is 10^q / 2
+	if q < lo {
+		lo = q
+	}
+	if q+1 > hi {
+		hi = q + 1
+	}
+	L := hi - lo
+	if L > 64 {
+		vAssume(false) // outside the bound of this harness
+	}
+	A := make([]int, L)
+	B := make([]int, L)
+	for i, d := range a.ds {
+		A[hi-ae+i] = int(d - '0')
+	}
+	if !b.zero {
+		for i, d := range b.ds {
+			B[hi-be+i] = int(d - '0')
+		}
+	}
+	// D1 = A-B, D2 = B-A with borrows
+	D1 := make([]int, L)
+	D2 := make([]int, L)
+	bo1, bo2 := 0, 0
+	for i := L - 1; i >= 0; i-- {
+		d := A[i] - B[i] - bo1
+		ng := d < 0
+		D1[i] = vIte(ng, d+10, d)
+		bo1 = vB2I(ng)
+		d = B[i] - A[i] - bo2
+		ng = d < 0
+		D2[i] = vIte(ng, d+10, d)
+		bo2 = vB2I(ng)
+	}
+	// |A-B| doubled, with one extra leading digit
+	T := make([]int, L+1)
+	carry := 0
+	for i := L - 1; i >= 0; i-- {
+		t := 2*vIte(bo1 == 1, D2[i], D1[i]) + carry
+		ge := t >= 10
+		T[i+1] = vIte(ge, t-10, t)
+		carry = vB2I(ge)
+	}
+	T[0] = carry
+	// compare T (grid lo, L+1 digits) with 10^q: the 1 sits at index p
+	p := L - (q - lo)
+	above, below := 0, 0
+	for i := 0; i < p; i++ {
+		above += T[i]
+	}
+	for i := p + 1; i <= L; i++ {
+		below += T[i]
+	}
+	if above != 0 {
+		return false
+	}
+	if T[p] == 0 {
+		return true
+	}
+	return T[p] == 1 && below == 0
+}
+
+// VerifNumberExact: Number(in, prec<=0) for every number lexeme of length n (with exponent part).
 func VerifNumberExact(n int) {
 	buf := vBytes("in", n+3)
 	in := buf[:n]
 	vAssume(refIsNumber(in, true))
+	prec := vInt("prec", -1, 0)
 	orig := make([]byte, n)
 	copy(orig, in)
 	g0, g1, g2 := buf[n], buf[n+1], buf[n+2]
-	out := Number(in, 0)
+	out := Number(in, prec)
 	vReach("after-call")
+	vOutput("out", out)
 	vAssert(len(out) <= n, "never longer")
 	vAssert(buf[n] == g0 && buf[n+1] == g1 && buf[n+2] == g2, "guard bytes untouched")
+	vAssert(vWithin(out, in), "result inside the given slice")
 	vAssert(refIsNumber(out, true), "output grammar")
 	vAssert(refSame(refParse(orig), refParse(out)), "same value")
 	vReach("end")
 }
 
-// VerifDecimal: Decimal(in, prec) grammar/no-exponent/length/panic-freedom and exactness at prec<=0
-func VerifDecimalExact(n int) {
-	buf := vBytes("in", n+3)
-	in := buf[:n]
-	vAssume(refIsNumber(in, false))
-	orig := make([]byte, n)
-	copy(orig, in)
-	out := Decimal(in, 0)
-	vReach("after-call")
-	vAssert(len(out) <= n, "never longer")
-	vAssert(refIsNumber(out, false), "output grammar")
-	vAssert(refSame(refParse(orig), refParse(out)), "same value")
-}
-
-// VerifNumberTotal: arbitrary bytes, arbitrary precision: no panic.
-func VerifNumberTotal(n int) {
-	buf := vBytes("in", n+3)
-	prec := vInt("prec", -1, 20)
-	out := Number(buf[:n], prec)
-	vAssert(len(out) <= n, "never longer")
-	vReach("end")
-}
-
-// VerifNumberNoExp: Number(in, 0) on lexemes without exponent part.
+// VerifNumberNoExp: Number(in, prec<=0) on lexemes without exponent part (cheaper: longer lexemes).
 func VerifNumberNoExp(n int) {
 	buf := vBytes("in", n+3)
 	in := buf[:n]
 	vAssume(refIsNumber(in, false))
+	prec := vInt("prec", -1, 0)
 	orig := make([]byte, n)
 	copy(orig, in)
-	out := Number(in, 0)
+	out := Number(in, prec)
 	vReach("after-call")
+	vOutput("out", out)
 	vAssert(len(out) <= n, "never longer")
+	vAssert(vWithin(out, in), "result inside the given slice")
 	vAssert(refIsNumber(out, true), "output grammar")
 	vAssert(refSame(refParse(orig), refParse(out)), "same value")
 	vReach("end")
+}
+
+// VerifDecimalExact: Decimal(in, prec<=0): grammar without exponent, exact value.
+func VerifDecimalExact(n int) {
+	buf := vBytes("in", n+3)
+	in := buf[:n]
+	vAssume(refIsNumber(in, false))
+	prec := vInt("prec", -1, 0)
+	orig := make([]byte, n)
+	copy(orig, in)
+	g0, g1, g2 := buf[n], buf[n+1], buf[n+2]
+	out := Decimal(in, prec)
+	vReach("after-call")
+	vOutput("out", out)
+	vAssert(len(out) <= n, "never longer")
+	vAssert(buf[n] == g0 && buf[n+1] == g1 && buf[n+2] == g2, "guard bytes untouched")
+	vAssert(vWithin(out, in), "result inside the given slice")
+	vAssert(refIsNumber(out, false), "output grammar (no exponent)")
+	vAssert(refSame(refParse(orig), refParse(out)), "same value")
+	vReach("end")
+}
+
+var verifExpSuffixes = []string{"", "e0", "e1", "e2", "e3", "e-1", "e-2", "e-5", "E+7", "e12"}
+
+// VerifNumberRound: Number(mantissa+suffix, prec in 1..20): valid grammar, never longer, within half a
+// unit of the prec-th significant digit. Mantissa = n symbolic bytes, exponent suffix from a fixed list.
+func VerifNumberRound(n int) {
+	sfx := verifExpSuffixes[vChoice("sfx", len(verifExpSuffixes))]
+	m := vBytes("in", n)
+	vAssume(refIsNumber(m, false))
+	in := append(append(make([]byte, 0, n+len(sfx)+2), m...), sfx...)
+	prec := vInt("prec", 1, 20)
+	orig := make([]byte, len(in))
+	copy(orig, in)
+	out := Number(in, prec)
+	vReach("after-call")
+	vOutput("out", out)
+	vAssert(len(out) <= len(in), "never longer")
+	vAssert(vWithin(out, in), "result inside the given slice")
+	vAssert(refIsNumber(out, true), "output grammar")
+	a, b := refParse(orig), refParse(out)
+	if refSame(a, b) {
+		vReach("end")
+		return
+	}
+	p := vConcrete(prec)
+	vAssert(refWithinHalfUlp(a, b, p), "within half a unit of the last retained digit")
+	vReach("end")
+}
+
+// VerifDecimalRound: Decimal(in, prec in 1..20).
+func VerifDecimalRound(n int) {
+	buf := vBytes("in", n+2)
+	in := buf[:n]
+	vAssume(refIsNumber(in, false))
+	prec := vInt("prec", 1, 20)
+	orig := make([]byte, n)
+	copy(orig, in)
+	out := Decimal(in, prec)
+	vReach("after-call")
+	vOutput("out", out)
+	vAssert(len(out) <= n, "never longer")
+	vAssert(vWithin(out, in), "result inside the given slice")
+	vAssert(refIsNumber(out, false), "output grammar (no exponent)")
+	a, b := refParse(orig), refParse(out)
+	if refSame(a, b) {
+		vReach("end")
+		return
+	}
+	p := vConcrete(prec)
+	vAssert(refWithinHalfUlp(a, b, p), "within half a unit of the last retained digit")
+	vReach("end")
+}
+
+// VerifNumberTotal: arbitrary bytes, arbitrary precision: no panic, never longer, stays inside.
+func VerifNumberTotal(n int) {
+	buf := vBytes("in", n+3)
+	prec := vInt("prec", -1, 20)
+	g0, g1, g2 := buf[n], buf[n+1], buf[n+2]
+	out := Number(buf[:n], prec)
+	vOutput("out", out)
+	vAssert(len(out) <= n, "never longer")
+	vAssert(buf[n] == g0 && buf[n+1] == g1 && buf[n+2] == g2, "guard bytes untouched")
+	vAssert(vWithin(out, buf[:n]), "result inside the given slice")
+	vReach("end")
+}
+
+// VerifDecimalTotal: arbitrary bytes, arbitrary precision.
+func VerifDecimalTotal(n int) {
+	buf := vBytes("in", n+3)
+	prec := vInt("prec", -1, 20)
+	g0, g1, g2 := buf[n], buf[n+1], buf[n+2]
+	out := Decimal(buf[:n], prec)
+	vOutput("out", out)
+	vAssert(len(out) <= n, "never longer")
+	vAssert(buf[n] == g0 && buf[n+1] == g1 && buf[n+2] == g2, "guard bytes untouched")
+	vAssert(vWithin(out, buf[:n]), "result inside the given slice")
+	vReach("end")
+}
+
+var verifHugeBases = []string{"9223372036854775800", "922337203685477580", "0000000000000000000", "18446744073709551610", "9999999999999999999"}
+
+// VerifNumberHugeExp: <mantissa>e[+-]<18-20 digit exponent whose last n digits are symbolic>: the exponent parser's and Number's
+// overflow guards either return the input unchanged or a valid, equal number. The mantissa is taken from a
+// short list so that normExp/intExp land on both sides of MinInt/MaxInt.
+func VerifNumberHugeExp(n int) {
+	d := vBytes("d", n)
+	for i := range d {
+		vAssume(refDigit(d[i]))
+	}
+	sign := vChoice("sign", 3)
+	mant := []string{"1", "1.55", "123.456", "0.0155", "100"}[vChoice("mant", 5)]
+	base := verifHugeBases[vChoice("pre", len(verifHugeBases))]
+	pre := base[:len(base)-n]
+	in := append([]byte(mant), 'e')
+	if sign == 1 {
+		in = append(in, '-')
+	} else if sign == 2 {
+		in = append(in, '+')
+	}
+	in = append(in, pre...)
+	in = append(in, d...)
+	orig := append([]byte(nil), in...)
+	out := Number(in, 0)
+	vOutput("out", out)
+	vAssert(len(out) <= len(orig), "never longer")
+	vAssert(refIsNumber(out, true), "output grammar")
+	// value: either unchanged bytes, or same mantissa digits (the exponent is beyond refParse's int range,
+	// so equality is checked on the lexeme level: unchanged input is always acceptable)
+	same := len(out) == len(orig)
+	if same {
+		for i := range out {
+			if out[i] != orig[i] {
+				same = false
+			}
+		}
+	}
+	vOutputBool("unchanged", same)
+	vReach("end")
+}
+
+// VerifTwinFails: vacuity twin - must be reported as violated.
+func VerifTwinFails(n int) {
+	buf := vBytes("in", n)
+	vAssume(refIsNumber(buf, true))
+	out := Number(buf, 0)
+	vAssert(len(out) < 0, "twin: unreachable assertion must fail")
 }
